@@ -285,10 +285,12 @@ def r_tab_1904(ctx, rep):
         for m in walk_k(fn.body, "Match"):
             for arm in m["arms"]:
                 ks, _ = pat_keys(arm["pat"])
-                if ("int", 0x22) in ks:
+                from .kit import pat_literals
+                if ("int", 0x22) in ks or 0x22 in [v for v in pat_literals(arm["pat"])[0] if isinstance(v, int)]:     # literal or named constant
                     sets = [a for a in walk_k(arm["body"], "Assign") if field_chain(a["l"]) == ("self", ["is_1904"]) and lit_value(a["r"]) is True]
-                    conds = [b for b in walk_k(arm["body"], "Binary") if b["op"] in ("==", "!=") and lit_value(b["r"]) in (0, 1)]
-                    ok = bool(sets and conds)
+                    where = [arm["body"]] + ([arm["guard"]] if arm.get("guard") is not None else [])      # `0x0022 if read_u16(..) == 1 => ..`
+                    conds = [b for w_ in where for b in walk_k(w_, "Binary") if b["op"] in ("==", "!=") and lit_value(b["r"]) in (0, 1)]
+                    ok = ok or bool(sets and conds)
         if ok:
             rep.holds("R-TAB-1904", key, loc(fn.raw), "Date1904 record (0x0022) value 1 sets the flag")
         else:
